@@ -194,7 +194,7 @@ def replay(pid, path):
     doc = json.load(open(path))
     rp = doc.get("replay", doc)
     out = os.path.join(od, "replay.ndjson")
-    if rp.get("layer", "plan") in ("order", "call"):
+    if rp.get("layer", "plan") in ("order", "call", "first"):
         vlib.run_harness("addrsort", ["order", "--out", out], timeout=900)
 
         def vk(r):
